@@ -100,6 +100,23 @@ theorem svd_full_rank_allotment (size nc : Nat) (hnc : 0 < nc) : collRank nc siz
   rw [Nat.mul_comm]
   exact Nat.mul_div_cancel _ hnc
 
+/-- General allotment: for every requested rank (Python's falsy `rank` resolved to `nc // 4`) every collection is
+denoised on exactly its own rows with rank `⌊rank · size / nc⌋`, computed in exact integers. -/
+theorem svd_allotment (rank : Nat) (collection : List Int) :
+    ∀ e ∈ svdPlan rank collection,
+      e.2.1 = whereEq collection e.1 ∧
+      e.2.2 = (if rank = 0 then collection.length / 4 else rank) * e.2.1.length / collection.length := by
+  intro e he
+  simp only [svdPlan, List.mem_map] at he
+  obtain ⟨col, _, rfl⟩ := he
+  exact ⟨rfl, rfl⟩
+
+/-- A single collection receives exactly the requested rank (no rounding loss: `⌊r · nc / nc⌋ = r`), so by
+`svd_denoise_id_of_rank_le` data of rank ≤ `r` are returned unchanged at requested rank `r`. -/
+theorem svd_single_collection_allotment (r nc : Nat) (hnc : 0 < nc) : collRank r nc nc = r := by
+  unfold collRank
+  exact Nat.mul_div_cancel _ hnc
+
 /-- … and every trace belongs to exactly one collection. -/
 theorem svd_collections_partition (collection : List Int) :
     ((unique collection).map (fun col => collection.count col)).sum = collection.length :=
@@ -257,6 +274,14 @@ example : SVDLaw (m := 1) (Matrix.of ![![(2 : ℂ)]]) 1 (fun _ => 2) 1 := by
   ext i j
   fin_cases i; fin_cases j
   simp
+
+/-- `svd_denoise_npx` per collection: a collection of `size` channels out of `nc` whose data have rank at most its
+share `⌊rank · size / nc⌋` of the requested rank is returned unchanged. -/
+theorem svd_allotment_identity {R C m : ℕ} (T : Matrix (Fin R) (Fin C) ℂ) (U : Matrix (Fin R) (Fin m) ℂ)
+    (s : Fin m → ℝ) (Vh : Matrix (Fin m) (Fin C) ℂ) (h : SVDLaw T U s Vh) (rank nc : ℕ)
+    (hr : T.rank ≤ IblVerif.Stack.collRank rank R nc) :
+    derankOf (IblVerif.Stack.collRank rank R nc) U s Vh = T :=
+  derank_of_rank_le T U s Vh h _ hr
 
 /-- Full rank needs nothing but the decomposition itself. -/
 theorem derank_full {R C m : ℕ} (r : ℕ) (T : Matrix (Fin R) (Fin C) ℂ) (U : Matrix (Fin R) (Fin m) ℂ)
